@@ -327,11 +327,11 @@ func genC17(c *h.Ctx) {
 		feats    []string
 	}
 	var jobs []*job
-	nS := c.N(2000, 20000)
+	nS := c.N(1000, 8000)
 	for i := 0; i < nS; i++ {
 		jobs = append(jobs, &job{r: c.Rng.Fork(), kind: 'S', depth: 1 + c.Rng.Intn(3), allowDev: c.Rng.Chance(15)})
 	}
-	nI := c.N(8000, 100000)
+	nI := c.N(4000, 32000)
 	for i := 0; i < nI; i++ {
 		depth := 1 + c.Rng.Intn(3)
 		var ps []string
